@@ -37,21 +37,27 @@ def tla_set(xs):
 
 
 def tla_par(p):
-    return "[min |-> %s, max |-> %s, g |-> %d, surplus |-> %s, backlog |-> %s]" % (
+    return "[min |-> %s, max |-> %s, g |-> %d, surplus |-> %s, backlog |-> %s, one |-> %d]" % (
         tla_int(p["min"]),
         tla_int(p["max"]),
         p["g"],
         tla_int(p["surplus"]),
         tla_int(p["backlog"]),
+        p.get("one", Q),
     )
 
 
-def all_params(mins, maxs, gs, surpluses, backlogs):
+def all_params(mins, maxs, gs, surpluses, backlogs, one=Q):
     out = []
     for mn, mx, g, su, ba in itertools.product(mins, maxs, gs, surpluses, backlogs):
         if mn <= mx:
-            out.append({"min": mn, "max": mx, "g": g, "surplus": su, "backlog": ba})
+            out.append({"min": mn, "max": mx, "g": g, "surplus": su, "backlog": ba, "one": one})
     return out
+
+
+def grid_of(case):
+    """grid units per 1 of this case: 2 (half units) unless its parameter record says otherwise"""
+    return case["par"].get("one", Q)
 
 
 def mc_module(name, params, values, supplies, inits, emit=False):
@@ -78,29 +84,30 @@ def mc_cfg(invariants=True, emit=False):
 
 
 # ------------------------------------------------------------------ driver (real code)
-def gran_value(g, gty):
-    if g % Q == 0 and gty == "int":
-        return g // Q
-    return g / Q
+def gran_value(g, gty, q=Q):
+    if g % q == 0 and gty == "int":
+        return g // q
+    return g / q
 
 
 def build(case):
     from cobald.decorator.standardiser import Standardiser
 
     p = case["par"]
+    Q = grid_of(case)  # noqa: shadows the default grid
     pool = RecPool(supply=from_grid(case["supply"], Q), demand=from_grid(case["tdemand"], Q), utilisation=0.25, allocation=0.75)
     std = Standardiser(
         pool,
         minimum=from_grid(p["min"], Q),
         maximum=from_grid(p["max"], Q),
-        granularity=gran_value(p["g"], case.get("gty", "int")),
+        granularity=gran_value(p["g"], case.get("gty", "int"), Q),
         surplus=from_grid(p["surplus"], Q),
         backlog=from_grid(p["backlog"], Q),
     )
     return pool, std
 
 
-def private_demand(std):
+def private_demand(std, Q=Q):
     try:
         return to_grid(std._demand, Q)
     except AttributeError:
@@ -123,6 +130,7 @@ def case_of_path(init, acts):
 
 def random_case(rnd, params, values, supplies, depth):
     par = rnd.choice(params)
+    Q = par.get("one", 2)  # noqa: shadows the default grid
     ops = []
     for _ in range(depth):
         c = rnd.random()
@@ -152,6 +160,7 @@ def execute_with_incr(case):
     a replay file is self-contained."""
     # resolve incrementally: we need the value read, so run step by step
     pool, std = build(case)
+    Q = grid_of(case)  # noqa: shadows the default grid
     ops, events = [], []
     last_read = None
     for op in case["ops"]:
@@ -172,11 +181,11 @@ def execute_with_incr(case):
                 # nothing was forwarded that could be compared: off the grid, whatever the limits
                 events.append({"e": "Write", "v": op["v"], "ty": op["ty"], "t": OFFGRID, "s": OFFGRID, "raised": type(ex).__name__})
                 continue
-            events.append({"e": "Write", "v": op["v"], "ty": op["ty"], "t": to_grid(pool.demand, Q), "s": private_demand(std)})
+            events.append({"e": "Write", "v": op["v"], "ty": op["ty"], "t": to_grid(pool.demand, Q), "s": private_demand(std, Q)})
         elif e == "Read":
             last_read_py = std.demand
             last_read = to_grid(last_read_py, Q)
-            events.append({"e": "Read", "r": last_read, "s": private_demand(std)})
+            events.append({"e": "Read", "r": last_read, "s": private_demand(std, Q)})
         elif e == "SupplyChange":
             pool._supply = from_grid(op["v"], Q)
             events.append({"e": "SupplyChange", "v": op["v"]})
@@ -194,7 +203,7 @@ def execute_with_incr(case):
                 }
             )
     case = dict(case, ops=ops)
-    trace = {"par": case["par"], "supply": case["supply"], "tdemand": case["tdemand"], "sdemand": case["tdemand"], "events": events}
+    trace = {"par": dict(case["par"], one=Q), "supply": case["supply"], "tdemand": case["tdemand"], "sdemand": case["tdemand"], "events": events}
     return case, trace
 
 
@@ -243,18 +252,22 @@ def run(ctx):
     # ---------------- (1) the design: exhaustive model checking of the specification
     if thorough:
         mc_params = all_params([-INF, 0, 3], [INF, 7, 8], [1, 2, 3, 4], [INF, 1, 4], [INF, 3])
-        mc_values, mc_supplies, mc_inits = [-2, 0, 1, 3, 4, 5, 7, 8, 9, 12], [0, 4, 9], [0, 5]
+        mc_values, mc_supplies, mc_inits = [-2, 0, 1, 3, 4, 5, 7, 8, 9, 12], [-3, 0, 4, 9], [0, 5]
+        # the same on a quarter-unit grid: granularities 1/4, 1/2, 3/4 (below 1), 1 and 3/2
+        mc_params += all_params([-INF, 3], [INF, 11], [1, 2, 3, 4, 6], [INF, 5], [INF, 3], one=4)
     else:
         mc_params = all_params([-INF, 3], [INF, 8], [1, 2, 3, 4], [INF, 4], [INF, 3])
-        mc_values, mc_supplies, mc_inits = [-2, 1, 3, 4, 5, 8, 9, 12], [0, 9], [0, 5]
+        mc_values, mc_supplies, mc_inits = [-2, 1, 3, 4, 5, 8, 9, 12], [-3, 0, 9], [0, 5]
+        mc_params += all_params([-INF, 3], [INF], [2, 3, 4], [INF, 5], [INF], one=4)
     res = tlc.run("MCStd", mc_cfg(), module_text=mc_module("MCStd", mc_params, mc_values, mc_supplies, mc_inits), timeout=1500, coverage=False)
     ctx.model_must_hold("Standardiser model", res)
     ctx.add_model_run("Standardiser.tla/%d parameter records" % len(mc_params), res)
 
     # ---------------- (2) spec -> code: edge cover of the emitted state graph
     em_all = all_params([-INF, 3], [INF, 8], [1, 2, 3, 4], [INF, 1, 4], [INF, 3])
-    em_params = em_all if thorough else rnd.sample(em_all, 10)
-    em_values, em_supplies, em_inits = [-2, 1, 3, 4, 5, 8, 9], [0, 4, 9], [0, 5]
+    em_quarter = all_params([-INF, 3], [INF, 11], [2, 3, 4], [INF, 5], [INF, 3], one=4)
+    em_params = em_all + em_quarter if thorough else rnd.sample(em_all, 8) + rnd.sample(em_quarter, 3)
+    em_values, em_supplies, em_inits = [-2, 1, 3, 4, 5, 8, 9], [-3, 0, 4, 9], [0, 5]
     res = tlc.run(
         "MCStdEmit",
         mc_cfg(invariants=False, emit=True),
@@ -280,11 +293,19 @@ def run(ctx):
     # ---------------- (3) code -> spec: seeded random histories on a wider domain
     r_params = all_params([-INF, -3, 0, 3, 5], [INF, 5, 7, 8, 20], [1, 2, 3, 4, 5, 6, 10], [INF, 1, 3, 4], [INF, 1, 3, 6])
     r_values = list(range(-12, 31))
-    r_supplies = [0, 1, 4, 9, 10, 15]
+    r_supplies = [0, 1, 4, 9, 10, 15, -1, -6]   # (a pool may report any supply, negative too)
+    # the same family on a quarter-unit grid: granularities between 0 and 1 with values between
+    # their multiples
+    q_params = all_params([-INF, -6, 0, 6, 10], [INF, 10, 14, 16, 40], [1, 2, 3, 4, 5, 6, 8, 12], [INF, 2, 6, 8], [INF, 2, 6, 12], one=4)
+    q_values = list(range(-24, 61))
+    q_supplies = [0, 2, 8, 18, 20, 30, -3, -12]
     n_random = 6000 if thorough else 1200
     depth = 40 if thorough else 25
-    for _ in range(n_random):
-        c, t = execute_with_incr(random_case(rnd, r_params, r_values, r_supplies, depth))
+    for k in range(n_random):
+        if k % 3 == 2:
+            c, t = execute_with_incr(random_case(rnd, q_params, q_values, q_supplies, depth))
+        else:
+            c, t = execute_with_incr(random_case(rnd, r_params, r_values, r_supplies, depth))
         cases.append(c)
         traces.append(t)
 
@@ -299,7 +320,7 @@ def run(ctx):
         "where the forwarded value differs from the written one (a limit or the granularity acted)"
     )
     ctx.assumptions = [
-        "values on a half-unit grid, |v| <= 15; infinite limits as +-10^6 half units (DESIGN 7.1)",
+        "values on a half-unit grid (a third of the random histories: quarter-unit grid), |v| <= 15; infinite limits as +-10^6 grid units (DESIGN 7.1)",
         "ReadbackLimited/ReadbackUnrounded only in states with no outside change since the last write (DESIGN 7.9)",
         "FloorWhenFree exempts float writes through the default granularity 1 (documented as 'no limit')",
     ]
